@@ -57,7 +57,17 @@ L4 = [
     'H() or forall(processed, lambda k, v: (FAILST(v) and k in failedMibs) or '
     '(ST(v, "untouched") and k not in parsedMibs and k not in failedMibs))',
     'H() or forall(parsedMibs, lambda k, v: k not in failedMibs and k not in processed)',
+    # C10: a module stays in the work set only after every searcher was asked (once, in list order) and none
+    # answered "fresh"
+    'H() or forall(parsedMibs, lambda k, v: implies(k in _done, count(ghost("asked_cnt"), k) == len(self._searchers) '
+    'and k not in ghost("fresh_seen")))',
 ]
+L4_HEAD = ['H() or forall(P0, lambda k, v: implies(k not in _done, count(ghost("asked_cnt"), k) == 0 '
+           'and k not in ghost("fresh_seen")))']
+L5_HEAD = ['H() or forall(P0, lambda k, v: implies(k not in _done and k != mibname, count(ghost("asked_cnt"), k) == 0 '
+           'and k not in ghost("fresh_seen")))',
+           'H() or (count(ghost("asked_cnt"), mibname) == _i and mibname not in ghost("fresh_seen"))',
+           'mibname not in _done', 'mibname in P0']
 
 # ---------------------------------------------------------------- code generation (loop 6)
 L6 = [
@@ -149,8 +159,8 @@ LOOPS = {
     2: {'invariant': DISC + ['H() or mibname not in parsedMibs']},
     3: {'invariant': DISC + ['ghost("h_trees") == _i', 'same(ghost("h_cur_req"), mibname)', 'H() or _i <= 1',
                              'H() or implies(_i == 0, mibname not in parsedMibs)']},
-    4: {'invariant': L4, 'snap': {'P0': 'parsedMibs'}},
-    5: {'invariant': L4 + ['mibname in parsedMibs']},
+    4: {'invariant': L4 + L4_HEAD, 'snap': {'P0': 'parsedMibs'}},
+    5: {'invariant': L4 + L5_HEAD + ['mibname in parsedMibs']},
     6: {'invariant': L6, 'snap': {'P1': 'parsedMibs'}},
     7: {'invariant': L7, 'snap': {'F0': 'failedMibs'}},
     8: {'invariant': L7 + ['mibname in failedMibs']},
